@@ -28,3 +28,14 @@ package schedule
 //@ func (w *Weekly) validate(r dayRange) (err error)
 //@   property C18
 //@   ensures accept-iff-valid-minutes: err == nil <==> (validRange(r) && r.start % 60000000000 == 0 && r.end % 60000000000 == 0)
+
+// lastClone / lastCloneSrc: the most recent copy made of a schedule and what it was made of (assumed frame: Clone
+// allocates the copy and changes nothing else).
+//@ ghost var lastCloneSrc *Weekly
+//@ ghost var lastClone *Weekly
+//@ func (w *Weekly) Clone() (c *Weekly)
+//@   callsites-only
+//@   nullable w
+//@   ghost at return: lastCloneSrc = w
+//@   ghost at return: lastClone = c
+//@   modifies lastCloneSrc, lastClone
